@@ -47,7 +47,7 @@ def _strip(name):
     return name[:-7] if name.endswith("@thread") else name
 
 
-def run_concurrent(world, commands, rng=None, choices=None, policy="random", faults=None, hold=None):
+def run_concurrent(world, commands, rng=None, choices=None, policy="random", faults=None, hold=None, hold_at=None):
     """commands: [(label, argv, cwd, extra_env)].  Returns dict(results, schedule, steps, stalled).
     `choices`: recorded schedule [[label, point], ...] to replay; missing/invalid choices fall back
     to the first parked request (recorded as such).
@@ -200,6 +200,21 @@ def run_concurrent(world, commands, rng=None, choices=None, policy="random", fau
                 return any(l == lbl and _strip(p).endswith(suffix) for l, p in schedule)
             eligible = [x for x in parked if x[0].label not in hold or released(*hold[x[0].label])]
             parked = eligible or parked
+        if hold_at:
+            # point-specific start constraints: a request of party L at a point ending with `suffix` stays parked until
+            # party `other` has exited (e.g. "the commit itself runs only after the agent's report has completed")
+            def blocked(x):
+                c = hold_at.get(x[0].label)
+                return bool(c) and (point_name(x[2]) or "").endswith(c[0]) and c[1] in parties and not parties[c[1]].exited
+            free = [x for x in parked if not blocked(x)]
+            if free or any(pt.running for pt in live):
+                parked = free
+            if not parked:
+                accept_all(0.005)
+                if time.time() - t_last > STALL_S:
+                    stalled = True
+                    break
+                continue
         # ---- decision
         pick = None
         while choices is not None and ci < len(choices) and choices[ci][1] == "<blocked>":
